@@ -181,6 +181,8 @@ def _indent_sources(s, a, seen=None):
 
 
 def run(prog, rep):
+    from . import optconv
+    optconv.check(prog, rep, 'C08')
     guarded(rep, "C08.R1", SLOW, lambda: _slow(prog, rep))
     guarded(rep, "C08.R1", WSL, lambda: _fast(prog, rep))
     guarded(rep, "C08.R3", "crate", lambda: _use_set(prog, rep))
